@@ -464,7 +464,13 @@ class Check:
         }
         if self.exhaustive is not None:
             cov["exhaustive"] = self.exhaustive
-        cov.update(self.notes)
+        _typed = {"programs": int, "obligations": int, "discharged": int, "disagreements_checked": int, "states": int,
+                  "transitions": int, "evaluations": int, "distinct_nontrivial": int, "traces_validated_against_impl": int,
+                  "checker_cmd": str, "explanation": str, "rule": str, "trusted_base": list, "samples": list, "exhaustive": bool}
+        for k, v in self.notes.items():  # free-form notes must not shadow the schema's typed keys
+            if k in _typed and not (isinstance(v, _typed[k]) and not (isinstance(v, bool) and _typed[k] is int)):
+                k = k + "_detail"
+            cov[k] = v
         ev = {
             "property_id": self.pid,
             "tier": self.tier,
